@@ -150,6 +150,114 @@ Section Frames.
     destruct (drain valid _ (buf ++ c)) as [[l b]| |]; cbn [bind]; try discriminate; [|congruence].
     specialize (IH b). destruct (feed valid b cs) as [[l' b']| |]; cbn [bind]; congruence.
   Qed.
+
+  (* ---- the socket reader (Connection::read_frame under the session's read loop) ---- *)
+  Lemma read_frame_eq buf reads :
+    read_frame valid buf reads =
+    match parse_frame valid buf with
+    | Ok (Some (fr, rest)) => Ok (Some (fr, rest, reads))
+    | Ok None =>
+      match reads with
+      | (_ :: _) as c :: tl => read_frame valid (buf ++ c) tl
+      | _ => match buf with [] => Ok None | _ => Err end
+      end
+    | Err => Err
+    | Panic => Panic
+    end.
+  Proof. destruct reads; reflexivity. Qed.
+
+  Definition nonempty (c : bytes) : Prop := c <> [].
+
+  (* the next message of the stream comes out whole, whatever is buffered and however the rest arrives *)
+  Lemma read_frame_next : forall chunks b m rest,
+    wf_frame m -> Forall nonempty chunks -> b ++ concat chunks = m ++ rest ->
+    exists b' chunks', read_frame valid b chunks = Ok (Some (m, b', chunks')) /\ b' ++ concat chunks' = rest /\ Forall nonempty chunks'.
+  Proof.
+    induction chunks as [|c cs IH]; intros b m rest Hm Hne E; rewrite read_frame_eq.
+    - cbn [concat] in E. rewrite app_nil_r in E. subst b. rewrite parse_frame_whole by assumption.
+      exists rest, []. cbn [concat]. rewrite app_nil_r. auto.
+    - destruct (Nat.lt_ge_cases (length b) (length m)) as [L|L].
+      + assert (Hp : partial_of b m).
+        { exists (skipn (length b) m). split.
+          - intros E0. apply f_equal with (f := @length N) in E0. rewrite skipn_length in E0. cbn [length] in E0. lia.
+          - assert (F : firstn (length b) (b ++ concat (c :: cs)) = firstn (length b) (m ++ rest)) by now rewrite E.
+            rewrite firstn_app, Nat.sub_diag, firstn_all in F. cbn [firstn] in F. rewrite app_nil_r in F.
+            rewrite firstn_app in F. replace (length b - length m) with 0 in F by lia. cbn [firstn] in F. rewrite app_nil_r in F.
+            rewrite <- (firstn_skipn (length b) m) at 2. f_equal. exact F. }
+        rewrite (parse_frame_partial b m Hm Hp). inversion Hne as [|? ? Hc Hcs]; subst.
+        destruct c as [|c0 c']; [now elim Hc|]. apply IH; [assumption|assumption|].
+        cbn [concat] in E. now rewrite <- app_assoc.
+      + assert (Eb : b = m ++ skipn (length m) b).
+        { assert (F : firstn (length m) (b ++ concat (c :: cs)) = firstn (length m) (m ++ rest)) by now rewrite E.
+          rewrite firstn_app in F. replace (length m - length b) with 0 in F by lia. cbn [firstn] in F. rewrite app_nil_r in F.
+          rewrite firstn_app, Nat.sub_diag, firstn_all in F. cbn [firstn] in F. rewrite app_nil_r in F.
+          rewrite <- F at 1. symmetry. apply firstn_skipn. }
+        remember (skipn (length m) b) as b' eqn:Eb'. clear Eb'. subst b. rewrite parse_frame_whole by assumption.
+        exists b', (c :: cs). split; [reflexivity|]. split; [|assumption]. rewrite <- app_assoc in E. now apply app_inv_head in E.
+  Qed.
+
+  (* the peer closes inside a message: an error, once what precedes it has come out *)
+  Lemma read_frame_cut : forall chunks b m,
+    wf_frame m -> Forall nonempty chunks -> partial_of (b ++ concat chunks) m -> b ++ concat chunks <> [] ->
+    read_frame valid b chunks = Err.
+  Proof.
+    induction chunks as [|c cs IH]; intros b m Hm Hne Hp Hn; rewrite read_frame_eq.
+    - cbn [concat] in Hp, Hn. rewrite app_nil_r in Hp, Hn. rewrite (parse_frame_partial b m Hm Hp). destruct b; [congruence|reflexivity].
+    - assert (Hpb : partial_of b m).
+      { destruct Hp as (y & Hy & Ey). exists (concat (c :: cs) ++ y). split; [|now rewrite app_assoc].
+        intros E0. apply app_eq_nil in E0 as (_ & E0). congruence. }
+      rewrite (parse_frame_partial b m Hm Hpb). inversion Hne as [|? ? Hc Hcs]; subst.
+      destruct c as [|c0 c']; [now elim Hc|]. cbn [concat] in Hp, Hn. rewrite app_assoc in Hp, Hn. now apply (IH _ m).
+  Qed.
+
+  Lemma all_empty : forall chunks : list bytes, Forall nonempty chunks -> concat chunks = [] -> chunks = [].
+  Proof. intros [|c cs] H E; [reflexivity|]. inversion H; subst. cbn [concat] in E. apply app_eq_nil in E as (-> & _). now elim H2. Qed.
+
+  (* every message once, in order, then the close - or the error where the stream is cut inside a message *)
+  Lemma c09_reader_proof : forall msgs chunks b,
+    Forall wf_frame msgs -> Forall nonempty chunks -> b ++ concat chunks = concat msgs ->
+    read_all valid (S (length msgs)) b chunks = (msgs, RdEof).
+  Proof.
+    induction msgs as [|m r IH]; intros chunks b Hw Hne E.
+    - cbn [concat] in E. apply app_eq_nil in E as (-> & E). rewrite (all_empty chunks Hne E). reflexivity.
+    - inversion Hw as [|? ? Hm Hr]; subst. cbn [concat] in E.
+      destruct (read_frame_next chunks b m (concat r) Hm Hne E) as (b' & chunks' & R & E' & Hne').
+      change (read_all valid (S (length (m :: r))) b chunks) with
+        (match read_frame valid b chunks with
+         | Ok (Some (fr, rest, reads')) => let (l, e) := read_all valid (S (length r)) rest reads' in (fr :: l, e)
+         | Ok None => ([], RdEof) | Err => ([], RdErr) | Panic => ([], RdPanic) end).
+      rewrite R, (IH chunks' b' Hr Hne' E'). reflexivity.
+  Qed.
+
+  Lemma c09_reader_cut_proof : forall msgs chunks b t m,
+    Forall wf_frame msgs -> wf_frame m -> Forall nonempty chunks -> partial_of t m -> t <> [] -> b ++ concat chunks = concat msgs ++ t ->
+    read_all valid (S (length msgs)) b chunks = (msgs, RdErr).
+  Proof.
+    induction msgs as [|m0 r IH]; intros chunks b t m Hw Hm Hne Hp Ht E.
+    - cbn [concat app] in E. cbn [length read_all]. rewrite (read_frame_cut chunks b m Hm Hne); [reflexivity|now rewrite E|now rewrite E].
+    - inversion Hw as [|? ? Hm0 Hr]; subst. cbn [concat] in E. rewrite <- app_assoc in E.
+      destruct (read_frame_next chunks b m0 (concat r ++ t) Hm0 Hne E) as (b' & chunks' & R & E' & Hne').
+      change (read_all valid (S (length (m0 :: r))) b chunks) with
+        (match read_frame valid b chunks with
+         | Ok (Some (fr, rest, reads')) => let (l, e) := read_all valid (S (length r)) rest reads' in (fr :: l, e)
+         | Ok None => ([], RdEof) | Err => ([], RdErr) | Panic => ([], RdPanic) end).
+      rewrite R, (IH chunks' b' t m Hr Hm Hne' Hp Ht E'). reflexivity.
+  Qed.
+
+  Lemma read_frame_np : forall reads buf, read_frame valid buf reads <> Panic.
+  Proof.
+    induction reads as [|c cs IH]; intros buf; rewrite read_frame_eq; pose proof (parse_frame_np buf) as H;
+      destruct (parse_frame valid buf) as [[[fr rest]|]| |]; try discriminate; try congruence.
+    - destruct buf; discriminate.
+    - destruct c; [destruct buf; discriminate|apply IH].
+  Qed.
+
+  Lemma c09_reader_np_proof : forall fuel buf reads, snd (read_all valid fuel buf reads) <> RdPanic.
+  Proof.
+    induction fuel as [|f IH]; intros buf reads; cbn [read_all]; [discriminate|]. pose proof (read_frame_np reads buf) as H.
+    destruct (read_frame valid buf reads) as [[[[fr rest] reads']|]| |]; try discriminate; [|congruence].
+    specialize (IH rest reads'). destruct (read_all valid f rest reads') as [l e]. exact IH.
+  Qed.
 End Frames.
 
 (* the blocking reader: a frame or an error for every length value *)
